@@ -130,7 +130,7 @@ func genRaw(emit func(string), tier string, rng *Rng) {
 	}
 	n, maxLen := 700, 8000
 	if thorough {
-		n, maxLen = 9000, 70000
+		n, maxLen = 40000, 70000
 	}
 	pool, kinds := fragInputs(rng, n, maxLen)
 	for i, b := range pool {
@@ -179,7 +179,7 @@ func genRaw(emit func(string), tier string, rng *Rng) {
 	// enumeration: every split point / every failure offset of a few small streams
 	ne := 6
 	if thorough {
-		ne = 60
+		ne = 300
 	}
 	for i := 0; i < ne; i++ {
 		b := fragSeal(rng, fragRecords(rng, 6))
